@@ -128,6 +128,8 @@ package service
 //@   requires d.D != nil
 //@   modifies *d.D
 //@   ensures len(*d.D) == old(len(*d.D)) + len(date)
+// row k of the request gets the date of row k (not the one of another row of the request)
+//@   at ColDate).Append$ each-row-gets-its-own-date: rangeindex >= 0 && rangeindex < len(date) && arg0 == date[rangeindex]
 //@   loop 1:
 //@     invariant len(*d.D) == old(len(*d.D)) + rangeindex + 1 && rangeindex + 1 <= len(date)
 //@     modifies *d.D
